@@ -110,6 +110,10 @@ def replay_case(prop, path):
     bit = PROP_BIT[prop]
     for l in brief(t, (first or k_out or nsteps) + 1)[-8:]:
         print("  " + l[:400])
+    oov = Conv(t).out_of_vocabulary()
+    if oov:
+        print("VIOLATION property=%s replay=%s no-failing-input-found" % (prop, path))
+        print("  at step %d the implementation issues an output the model's vocabulary does not contain: %s" % (oov[0][0], json.dumps(oov[0][1])[:300])); return 1
     if bad or k_reply:
         print("INTERNAL: the replayed trace is not a contract-respecting history (bad=%s, reply mismatch at %s)" % (bad, k_reply)); return 3
     if mask & (1 << bit):
@@ -165,6 +169,15 @@ def run_property(prop, tier, seed, gen, rule, assumptions, pins_targets=None, pr
             if npay > 0 or e1.get("crash") or any(k.startswith("proc/") for k in e1):
                 o.nontrivial.add(json.dumps(t["events"], sort_keys=True)[:4000])
             desc_head = "[%s build] family %s, %d events" % (profile, c["family"], nsteps)
+            oov = Conv(t).out_of_vocabulary()
+            if oov:
+                # not a tooling error: the implementation said something the model cannot say. The correspondence is broken
+                # at that step; the monitors cannot interpret the rest of this trace.
+                k0, o0 = oov[0]
+                o.corr_failures.append((desc_head + ": at step %d the implementation issued %s, which the model's vocabulary does not contain: %s" % (
+                                            k0, "a request" if o0["o"] == "call" else "an output", json.dumps(o0)[:300]),
+                                        {"profile": profile, "family": c["family"], "step": k0, "history": brief(t, k0 + 1), "case": runnable(c), "trace": t}))
+                continue
             if bad:
                 o.internal.append(desc_head + ": the trace violates the environment contract / simulated node disagrees")
                 continue
@@ -215,7 +228,7 @@ def walks(r, n, families=("default", "faulty", "crashy", "slow"), nhash=(1, 2), 
 
 def bursts(r, n):
     """Sets whose HTLCs arrive concurrently while the table lock is contended (1-4 pieces, with and without a rejecting one)."""
-    kinds = ["low_expiry", "low_total", "other_invoice", "other_amount"]
+    kinds = ["low_expiry", "low_total", "other_invoice", "other_amount", "near_hash"]
     out = []
     for i in range(n):
         rej = (kinds[i % 4], (i // 4) % 4) if i % 3 == 2 else None
@@ -226,10 +239,10 @@ def stories(r, n, **kw):
     return [story_case(r.fork(), ending=PAY_ENDINGS[i % len(PAY_ENDINGS)], **kw) for i in range(n)]
 
 def reject_stories(r, n, **kw):
-    kinds = ["low_expiry", "low_total", "other_invoice", "other_amount"]
+    kinds = ["low_expiry", "low_total", "other_invoice", "other_amount", "near_hash"]
     # every other "other_amount" story uses ONE amountless invoice whose parts disagree on the declared amount
-    return [story_case(r.fork(), ending=r.choice(PAY_ENDINGS), reject=(kinds[i % 4], (i // 4) % 4), npieces=1 + (i // 16) % 3,
-                       amountless=(i % 8 == 3 or i % 8 == 6), **kw) for i in range(n)]
+    return [story_case(r.fork(), ending=r.choice(PAY_ENDINGS), reject=(kinds[i % 5], (i // 5) % 4 + (i // 20) * 4 if kinds[i % 5] == "near_hash" else (i // 5) % 4), npieces=1 + (i // 20) % 3,
+                       amountless=((kinds[i % 5] == "other_amount" and (i // 5) % 2 == 0) or (kinds[i % 5] == "other_invoice" and (i // 5) % 4 == 1)), **kw) for i in range(n)]
 
 def crash_sweep(r, nbase, stride, probe=False, **kw):
     out = []
@@ -271,7 +284,7 @@ def gen_for(prop):
         k = 4 if T else 1
         cs = []
         if prop == "C01":
-            cs += stories(r, 11 * k); cs += reject_stories(r, 16 * k)
+            cs += stories(r, 11 * k); cs += reject_stories(r, 25 * k)
             cs += walks(r, 60 * k * (3 if T else 1), nhash=(2, 2, 1))
             cs += crash_sweep(r, 2 * k, 3)
         elif prop in ("C02", "C05"):
